@@ -1,6 +1,7 @@
 import EaselModel.Core.Proto
 import EaselModel.Buffer.Mem
 import EaselModel.Buffer.MemConsts
+import EaselModel.Buffer.MemRealStart
 /-! Line protocol of the stateless `esl_mem.c` ops of C05 (round 4). `memLine ws` = the answer line, `none` if `ws` is not a mem op.
 
   strtoi32|strtoi64|strtoi hex=<bytes> base=<int>      -> `<status> nc=<n|untouched> val=<decimal|untouched>`
@@ -96,7 +97,7 @@ def memLine (ws : List String) : Option String :=
     | none => some "bad-op"
   | some "memisreal" =>
     match argHexN? ws "hex" with
-    | some p => some (fmtB (if MemConsts.isRealStrict then memIsRealS p else memIsReal p))
+    | some p => some (fmtB (if MemConsts.isRealStart then memIsRealL p else if MemConsts.isRealStrict then memIsRealS p else memIsReal p))
     | none => some "bad-op"
   | _ => none
 
